@@ -16,7 +16,7 @@ def claim(pid, category, text, note, technique, design_ref, thorough=True):
 claim("C07", "proof",
       "Finite table, decided completely: every generated name/symbol/si_prefix/scale constant of every catalogue and astronomical unit "
       "(folded from the type-checked program, f64 and decimal back-ends) equals the attribute row as written and an independently written "
-      "exact-rational definition table; SI-prefix consistency by exact arithmetic. One recorded known finding (Sideral_Day).",
+      "exact-rational definition table (a scale the attribute does not spell as a literal is judged by its generated constant alone); SI-prefix consistency by exact arithmetic. One recorded known finding (Sideral_Day).",
       "Trusted: rustc type checking/THIR construction, correctly rounded literal parsing (rustc and Python agree), the oracle table "
       "/verif/oracle/units.txt. Units unknown to the oracle are reported as unverified, not as violations.",
       "constant-table extraction from THIR + exact-rational oracle comparison (static)", "DESIGN.md §4 C07")
@@ -30,7 +30,7 @@ claim("C01", "other",
       "LinearScaledUnit::ratio, HasRefUnit::equiv_amount and ::convert (generic bodies) are compared with the specification over the truth table of "
       "their guards — same-unit branch is the untouched amount (no arithmetic node), converted branch is amount*s_from/s_to as a rational function, "
       "convert stores exactly equiv_amount's result and the requested unit; record axioms amount(new(a,u))=a, unit(new(a,u))=u for every generated "
-      "type in both back-ends; no impl overrides the analysed defaults; scale tables total and positive. Decimal back-end: forward error analysis of the conversion term for every "
+      "type in both back-ends; an impl that overrides one of the analysed defaults must be that default specialised to its type (equivalence decided per type over all unit assignments: same outcome and same operand tree in every case); scale tables total and positive. Decimal back-end: forward error analysis of the conversion term for every "
       "ordered unit pair of every reference-unit type (amount-free sub-trees folded as fpdec computes them; effective coefficient vs exact scale ratio, 1e-18 relative). Found and fixed a "
       "genuine defect: conversion to a larger unit lost up to 14 digits (known_findings.json).",
       VF_NOTE, "gated value-flow summaries over THIR + exact-tree / rational-function normal forms (static)", "DESIGN.md §4 C01")
@@ -49,16 +49,16 @@ claim("C03", "other",
 claim("C08", "other",
       "Record axioms of every generated new/amount/unit by composition; the five scalar/unit operator bodies of every quantity type are exact "
       "pass-through / single-operation trees (so zero, -0, infinities and NaN need no separate argument); the dimensionless amount, One, AMNT_ONE; operator surfaces added later are "
-      "judged too: borrowed variants of the scaling operators must compute what the by-value form computes, compound assignment must be `*self = *self op rhs` through the checked operator.",
+      "judged too: borrowed variants of the scaling operators must compute what the by-value form computes; bodies that work through compound assignment or on the fields directly are evaluated (writes through &mut receivers) and compared in the type's record form.",
       VF_NOTE, "value-flow forms as exact trees, per generated impl (static)", "DESIGN.md §4 C08")
 claim("C10", "other",
       "Quantity::{eq,partial_cmp,add,sub,div} as gated terms: equality is exactly same-unit AND same-amount (Boolean truth table), ordering None across "
       "units, arithmetic across units ends in a diverging panic and never returns; types without reference unit forward to these bodies and implement "
-      "neither HasRefUnit nor LinearScaledUnit; single-unit types do plain amount arithmetic; compound-assignment impls, if any, must go through the checked operators.",
+      "neither HasRefUnit nor LinearScaledUnit (a forwarder with a fast path is expanded and compared case by case with the default it names); single-unit types do plain amount arithmetic; compound-assignment impls, if any, must leave in *self what the checked binary operator returns.",
       VF_NOTE, "gated value-flow summaries incl. diverging branch + who-calls (static)", "DESIGN.md §4 C10")
 claim("C16", "proof",
       "The four 25-row tables and the discriminants are extracted as constant tables and compared with the SI brochure table; the gated summary of from_exp is evaluated for each of the 256 "
-      "i8 values (integer semantics with overflow checks: hit -> that prefix, miss -> None, never a panic), from_abbr tests its argument only by equality with literals and is decided on "
+      "i8 values (integer semantics with overflow checks: hit -> that prefix, miss -> None, never a panic; a loop-based lookup is constant-folded at each of the 256 arguments instead), from_abbr tests its argument only by equality with literals and is decided on "
       "{each literal} + {any other string}; iteration order from VARIANTS.",
       "Trusted: rustc match semantics, oracle/si_prefixes.json, core::slice::Iter order.", "constant-table extraction + exhaustive evaluation of the lookup summaries + oracle comparison (static, exhaustive)",
       "DESIGN.md §4 C16")
@@ -66,13 +66,13 @@ claim("C16", "proof",
 claim("C04", "other",
       "One value-flow obligation per generated Mul/Div between quantity types (catalogue 34, astronomical 4, fixtures 8; both back-ends): combined scale uses the impl's "
       "own operator, natural-unit branch stores exactly a⊗b with the looked-up unit, fallback passes (a⊗b)·σ (rational function) to the RESULT type's _fit; generic _fit "
-      "returns new(x/scale(u), u) with one u; three reference forms per operator forward the dereferenced operands in order to the by-value impl (resolved callee); decimal back-end: "
+      "returns new(x/scale(u), u) with one u; three reference forms per operator forward the dereferenced operands in order to the by-value impl (resolved callee) or satisfy the same specification themselves; helper default methods are looked through with their generic parameters bound to the operator's types; decimal back-end: "
       "for every unit pair a rounded scale combination never coincides spuriously with a result unit's scale.",
       VF_NOTE, "gated value-flow summaries per generated impl + resolved who-calls (static)", "DESIGN.md §4 C04")
 claim("C05", "other",
       "_fit uses the amount only in comparisons (checked structurally), so selection is a function on a finite order partition: the extracted selection model "
       "(iterator chain + closure predicates from the THIR summary) is evaluated on every cell (below/on/between/above every distinct scale, zero, negative) of every "
-      "reference-unit type's table in both back-ends and compared with the specified selection; lookup(1) is the reference unit; lookup(s) hits for every declared scale. Exhaustive.",
+      "reference-unit type's table in both back-ends and compared with the specified selection; every type's own scale lookup (the dimensionless amount's included): lookup(1) is the reference unit, lookup(s) hits for every declared scale and misses on every other cell. Exhaustive.",
       "Trusted: std contracts of Iterator::filter/next/last/find and Option::unwrap; rustc THIR construction. The natural-unit branch form is C04, the lookup form C09.",
       "extracted selection model evaluated over the finite order domain of the scale tables (static, exhaustive)", "DESIGN.md §4 C05")
 claim("C06", "proof",
@@ -93,7 +93,7 @@ claim("C09", "proof",
 claim("C13", "other",
       "Rate is a four-field record (axioms by composing the extracted new/accessor bodies); reciprocal swaps the pairs and is an involution by rewriting; Rate*q (generic body), and "
       "q*Rate / q/Rate of every quantity type are compared as rational functions over the uninterpreted like-quantity ratio (unit slots exactly); q / r equals q * reciprocal(r) after substitution; "
-      "every arithmetic intermediate of a rate operation is one of the magnitudes the property names (so no unbounded intermediate is rounded in the decimal back-end).",
+      "every arithmetic intermediate of a rate operation is one of the magnitudes the property names (so no unbounded intermediate is rounded in the decimal back-end); if Rate*q delegates to q*Rate the per-type obligation extends to the dimensionless amount; borrowed rate forms must forward.",
       VF_NOTE + " The like-quantity ratio itself is C03/C10; as_qty is C09.", "value-flow summaries + rational-function normal form (static)", "DESIGN.md §4 C13")
 claim("C14", "other",
       "ConversionTable::convert (one generic body, hence any table): identity branch returns the value unchanged, otherwise find_map over the table in order with the row predicate "
@@ -120,7 +120,7 @@ claim("C18", "other",
       "every result type and every cell from the extracted tables (f64: incl. NaN and +-infinity magnitudes). Decimal back-end: magnitude-bound analysis (exact rational vertex enumeration over the polygon of admissible amounts) of every "
       "arithmetic node of every derived operator x unit pair and of convert/==/partial_cmp/+/-// of every reference-unit type x ordered unit pair: every intermediate stays below 2^127/10^18 "
       "whenever the property's named magnitudes lie in [1e-15, 1e17]; the scale lookups are evaluated by a decimal-mode model interpreter per unit pair; every intermediate of a rate operation is one "
-      "of the named magnitudes. Found and fixed a genuine overflow defect (known_findings.json). NOT decided: the decimal range inside formatting (fpdec's Display).",
+      "of the named magnitudes; no library body constructs a core::fmt::Error (a Display impl returning an error of its own makes to_string() panic). Found and fixed a genuine overflow defect (known_findings.json). NOT decided: the decimal range inside formatting (fpdec's Display).",
       "Trusted: MIR construction makes every language-level panic explicit; f64 arithmetic never panics; allow-listed std functions; fpdec-0.11 overflow semantics as read from its source "
       "(mul/div panic iff the 18-digit result coefficient exceeds i128, add/sub align by <= 10^18).",
       "MIR panic-site inventory + call-graph reachability + table-based discharge + magnitude-bound analysis over value-flow terms (static)", "DESIGN.md §4 C18, §10")
